@@ -196,6 +196,8 @@ impl TerminalState {
                 if buf.is_terminal_buffer {
                     let first = buf.get_first_visible_line();
                     caret.pos.y = caret.pos.y.clamp(first, first + self.get_height() - 1);
+                } else {
+                    caret.pos.y = caret.pos.y.max(0);
                 }
                 caret.pos.x = caret.pos.x.clamp(0, (self.get_width() - 1).max(0));
             }
